@@ -214,7 +214,9 @@ class Selection:
                     lists.append(None)
             if any(l is None for l in lists):
                 return
-            for combo in itertools.product(*lists):
+            for j, combo in enumerate(itertools.product(*lists)):
+                if j > 0 and n.get("consume") == "first":
+                    break  # a Map is lazy: elements its consumer never asks for are never evaluated
                 o2 = self.o
                 for key, x in combo:
                     top = {}
@@ -265,6 +267,7 @@ class C06(HistoryProperty):
 
     def gen_case(self, rng, tier):
         cfg = gen.swarm_cfg(rng, off=("shape_change", "alloptions", "dangling", "tmpl_preset"), on=("dispatch", "overloads", "opt_default_expr", "dsclass"))
+        cfg["map_partial"] = True
         if rng.random() < 0.4:  # a share of the programs without option-rewriting nodes at all (the simplest setting)
             cfg["kinds"] = [k for k in cfg["kinds"] if k not in ("withopts", "derive", "map")]
             cfg["presets"] = cfg["default_presets"] = False
